@@ -107,6 +107,21 @@ def run(ctx):
                 ctx.case((name, smi, 'mol'), None)
                 ctx.count('mol_objects')
                 compare(ctx, name, lib, smi, base, m, r, 'mol')
+                # the same molecule OBJECT again (the first call must not have altered the caller's object), and an object
+                # that already carries its hydrogens explicitly (nothing left for AddHs to add), twice
+                r_again = S.impl_descriptors(lib, m)
+                ctx.case((name, smi, 'mol-again'), None)
+                compare(ctx, name, lib, smi, base, m, r_again, 'mol-second-call')
+                try:
+                    mh = Chem.AddHs(Chem.MolFromSmiles(smi))
+                except Exception:
+                    mh = None
+                if mh is not None:
+                    for tag in ('mol-explicit-H', 'mol-explicit-H-second-call'):
+                        rh = S.impl_descriptors(lib, mh)
+                        ctx.case((name, smi, tag), None)
+                        ctx.count('mol_explicit_h')
+                        compare(ctx, name, lib, smi, base, mh, rh, tag)
                 # (c) renumbered molecule objects
                 m2, s2 = G.renumbered(rng, smi)
                 r2 = S.impl_descriptors(lib, m2)
